@@ -126,8 +126,14 @@ def coq_make(targets, timeout=2400):
         return rc == 0, out
 
 
+def props_files(prop):
+    """Props/<prop>.v and Props/<prop>_<part>.v (a property may spread its theorems over several files)"""
+    d = os.path.join(COQ, "Props")
+    return sorted(f[:-2] for f in os.listdir(d) if re.match(r"^%s(_[A-Za-z0-9]+)?\.v$" % prop, f))
+
+
 def props_targets(prop):
-    """the .vo files Props/<prop>.v imports (make builds their dependencies): one broken
+    """the .vo files a Props file imports (make builds their dependencies): one broken
     proof elsewhere does not block an unrelated property."""
     text = strip_comments(open(os.path.join(COQ, "Props", prop + ".v")).read())
     names = []
@@ -207,7 +213,7 @@ def build_harness(bins=None, timeout=3000):
     with Lock("cargo" if REPO == "/repo" else "cargo_alt"):
         if not os.path.exists(lock) or open(lock).read().count("name = ") < 50:
             shutil.copy(os.path.join(REPO, "Cargo.lock"), lock)
-        cmd = ["cargo", "build", "--offline", "--quiet"]
+        cmd = ["cargo", "build", "--offline", "--quiet", "--target-dir", TARGET]
         for b in bins or []:
             cmd += ["--bin", b]
         rc, out = sh(cmd, cwd=HARNESS, timeout=timeout)
